@@ -407,3 +407,24 @@ func VerifExpandSpans(spans []VerifSpan, mode TextReadMode) ([]VerifCell, bool) 
 	cells, ok, zero, _ := verifExpandSpans(verifToSpans(spans), mode)
 	return cells, ok && zero == 0
 }
+
+// VerifUnisegStep exposes uniseg.Step as the reader uses it: the byte length
+// of the first cluster, its width and the new state.
+func VerifUnisegStep(buf []byte, state int) (int, int, int) {
+	cluster, _, boundaries, newState := uniseg.Step(buf, state)
+	return len(cluster), boundaries >> uniseg.ShiftWidth, newState
+}
+
+// VerifNextTokenInfo exposes nextGraphemeTokenInfo / nextRuneTokenInfo: consumed
+// bytes, width, merge flag, new segmentation state, new forceMergeNext, new
+// lastWasRI, ok.
+func VerifNextTokenInfo(buf []byte, state int, forceMergeNext, lastWasRI bool, mode TextReadMode) (int, int, bool, int, bool, bool, bool) {
+	r := &GraphemeReader{state: state, forceMergeNext: forceMergeNext, lastWasRI: lastWasRI, mode: mode}
+	_, consumed, width, merge, newState, fm, ri, ok := r.nextTokenInfo(buf)
+	return consumed, width, merge, newState, fm, ri, ok
+}
+
+// ReaderState returns the segmentation state of the step-driven reader.
+func (v *VerifTerm) ReaderState() (int, bool, bool) {
+	return v.gr.state, v.gr.forceMergeNext, v.gr.lastWasRI
+}
